@@ -15,6 +15,8 @@ def eval (s : Store) : Expr → Except Err Val
   | .or a b => do let x ← eval s a; if x.truthy then pure x else eval s b
   | .not a => do let x ← eval s a; pure (.bool (!x.truthy))
   | .ite c a b => do let x ← eval s c; if x.truthy then eval s a else eval s b
+  | .abs a => do let x ← eval s a; pure (.int x.toInt.natAbs)
+  | .mm k a b => do let x ← eval s a; let y ← eval s b; pure (k.pick x y)
 
 inductive Flow where | normal | broke
   deriving DecidableEq, Repr
